@@ -724,3 +724,121 @@ def run(ctx):  # noqa: F811
     _run_core(ctx)
     if not os.environ.get("VERIF_REPLAY"):
         member_cases(ctx)
+
+
+# ---- declared min / max at the simulator's initial state ---------------------------------------------------
+SIM_BOUND_MODELS = [
+    # (name, model text, {variable: (min, max)}, [(lhs variable, rhs as python expression over the t0 values)])
+    ("SB1", """model SB1
+  parameter Real hm = 2.0;
+  input Real u0;
+  Real V(start=0.0);
+  Real h(min=hm);
+equation
+  der(V) = (u0 - 0.1 * V) / 3600.0;
+  h = 0.5 * V;
+end SB1;
+""", {"h": (2.0, None)}, [("h", "0.5 * V")]),
+    ("SB2", """model SB2
+  input Real u0;
+  Real x0(start=3.0);
+  Real x1(start=3.0);
+  Real a0;
+  Real a1(max=4.0);
+equation
+  der(x0) = (u0 - x0) / 3600.0;
+  der(x1) = (u0 - 2.0 * x1) / 3600.0;
+  a0 = x0 - x1;
+  a1 = x0 + x1;
+end SB2;
+""", {"a1": (None, 4.0)}, [("a0", "x0 - x1"), ("a1", "x0 + x1")]),
+    ("SB3", """model SB3
+  parameter Real hm = 2.0;
+  input Real u0;
+  Real x0(start=3.0, min=-8.0);
+  Real h(max=2.0 * hm, nominal=10.0);
+  Real g(min=-1.5);
+equation
+  der(x0) = (u0 - x0) / 3600.0;
+  h = x0 + 5.0;
+  g = x0;
+end SB3;
+""", {"h": (None, 4.0), "g": (-1.5, None), "x0": (-8.0, None)}, [("h", "x0 + 5.0"), ("g", "x0")]),
+    ("SB4", """model SB4
+  input Real u0;
+  Real x0(start=0.0, min=1.5, nominal=5.0);
+  Real y;
+equation
+  der(x0) = (u0 - x0) / 3600.0;
+  y = 2.0 * x0;
+end SB4;
+""", {"x0": (1.5, None)}, [("y", "2.0 * x0")]),
+]
+
+
+def run_sim_bounds(item):
+    import logging
+    import warnings
+    warnings.filterwarnings("ignore")
+    logging.disable(logging.CRITICAL)
+    from rtctools.simulation.csv_mixin import CSVMixin
+    from rtctools.simulation.simulation_problem import SimulationProblem
+
+    name, text, _, _ = item
+    base = tempfile.mkdtemp(prefix="verif_c14_")
+    try:
+        mdl, inp, outp = (os.path.join(base, d) for d in ("model", "input", "output"))
+        for d in (mdl, inp, outp):
+            os.makedirs(d)
+        with open(os.path.join(mdl, name + ".mo"), "w") as fh:
+            fh.write(text)
+        mo.write_timeseries_csv(os.path.join(inp, "timeseries_import.csv"), T0, 3600, {"u0": ["1", "1", "1"]})
+
+        class S(CSVMixin, SimulationProblem):
+            def compiler_options(self):
+                o = super().compiler_options()
+                o["cache"] = False
+                return o
+        p = S(model_folder=mdl, model_name=name, input_folder=inp, output_folder=outp)
+        p.pre()
+        p.initialize()
+        import re
+        return {n: float(p.get_var(n)) for n in re.findall(r"^\s+(?:input )?Real (\w+)", text, re.M)}
+    except Exception as e:  # noqa: BLE001
+        return {"error": "%s: %s" % (type(e).__name__, str(e)[:200])}
+    finally:
+        shutil.rmtree(base, ignore_errors=True)
+
+
+def sim_bound_cases(ctx):
+    """declared min / max (numbers and parameter expressions) of states and algebraic variables hold at the
+    simulator's initial state, together with the model equations"""
+    from concurrent.futures import ProcessPoolExecutor
+    with ProcessPoolExecutor(max_workers=4) as ex:
+        results = list(ex.map(run_sim_bounds, SIM_BOUND_MODELS))
+    for (name, text, bnds, eqs), t0 in zip(SIM_BOUND_MODELS, results):
+        ctx.case_done(core.fingerprint(["sim-bounds", name]), True)
+        ctx.count("sim_bound_models")
+        if "error" in t0:
+            ctx.count("sim_bound_unsolved")
+            ctx.violation("sim/bounds-initialize", {"model": text, "error": t0["error"]}, no_input=True,
+                          what="initialize() failed on a model with declared bounds: %s" % t0["error"][:120])
+            continue
+        for v, (lo, hi) in bnds.items():
+            if (lo is not None and t0[v] < lo - 1e-6) or (hi is not None and t0[v] > hi + 1e-6):
+                ctx.violation("sim/declared-bound", {"model": text, "variable": v, "value": t0[v], "min": lo, "max": hi, "t0": t0},
+                              what="simulation initial state: %s = %g outside its declared [%s, %s]" % (v, t0[v], lo, hi))
+        for lhs, rhs in eqs:
+            want = eval(rhs, {}, dict(t0))  # noqa: S307 - fixed expressions above
+            if abs(t0[lhs] - want) > 1e-6 * (1 + abs(want)):
+                ctx.violation("sim/initial-equations", {"model": text, "equation": "%s = %s" % (lhs, rhs), "t0": t0},
+                              what="simulation initial state violates %s = %s" % (lhs, rhs))
+
+
+_run_core3 = run
+
+
+def run(ctx):  # noqa: F811
+    _run_core3(ctx)
+    if not os.environ.get("VERIF_REPLAY"):
+        sim_bound_cases(ctx)
